@@ -42,7 +42,8 @@ def parseParams (j : Json) : Params :=
   let cp := J.get j "claim_proposal_params"
   { protection := J.intOf pp "protection_period", withdrawPeriod := J.intOf pp "withdraw_period", feesRate := ⟨J.decRaw (J.strOf pp "shield_fees_rate")⟩,
     poolLimit := ⟨J.decRaw (J.strOf pp "pool_shield_limit")⟩, minPurchase := Coins.amountOf (J.sdkCoins (J.get pp "min_shield_purchase")) "uctk",
-    stakingRate := ⟨J.decRaw (J.strOf j "shield_staking_rate")⟩, payoutPeriod := J.intOf cp "payout_period" }
+    stakingRate := ⟨J.decRaw (J.strOf j "shield_staking_rate")⟩, payoutPeriod := J.intOf cp "payout_period",
+    claimMinDeposit := Coins.amountOf (J.sdkCoins (J.get cp "min_deposit")) "uctk", claimDepositRate := ⟨J.decRaw (J.strOf cp "deposit_rate")⟩ }
 
 def parseState (j : Json) : State :=
   { admin := J.strOf j "shield_admin",
@@ -58,14 +59,6 @@ def parseState (j : Json) : State :=
     blockFees := decCoinsJ (J.get (J.get j "block_fees") "native"), stakingPool := J.intOf j "global_staking_pool",
     lastUpdate := J.intOf j "last_update_time", nextPool := (J.intOf j "next_pool_id").toNat, nextPurchase := (J.intOf j "next_purchase_id").toNat,
     params := parseParams j }
-
-structure ClaimParams where
-  minDeposit : Int
-  depositRate : Dec
-  deriving Inhabited
-def parseClaimParams (j : Json) : ClaimParams :=
-  let cp := J.get j "claim_proposal_params"
-  { minDeposit := Coins.amountOf (J.sdkCoins (J.get cp "min_deposit")) "uctk", depositRate := ⟨J.decRaw (J.strOf cp "deposit_rate")⟩ }
 
 /-- a state with coins the model does not cover (foreign denominations) -/
 def outsideModel (j : Json) : Bool :=
@@ -106,18 +99,6 @@ def propsOfFact (f : String) : String :=
   else if has "fees[" then "C02"
   else if has "totals[" then "C03,C04,C05"
   else "C03"
-
-/-! ### C05: admission of a claim (x/gov/keeper/msg_server.go validateProposalByType), restated -/
-def claimAdmissible (cp : ClaimParams) (s : State) (now : Int) (holder : Addr) (poolID purchaseID : Nat) (loss deposit : Int) : Option String :=
-  if Dec.lt (Dec.ofInt deposit) (Dec.mul (Dec.ofInt loss) cp.depositRate) || deposit < cp.minDeposit then some "deposit-too-small"
-  else match findList s poolID holder with
-  | none => some "no-purchase-list"
-  | some l => match l.entries.find? (·.id == purchaseID) with
-    | none => some "purchase-not-held"
-    | some en =>
-      if !(en.shield ≥ loss) then some "shield-below-loss"
-      else if en.endTime < now then some "protection-ended"
-      else none
 
 /-! ### monitors on transitions -/
 
